@@ -60,6 +60,10 @@ func (p *Proof) IsValid(public Public) bool {
 	if p.Commitment == nil || p.Z == nil {
 		return false
 	}
+	// Z is encrypted again during verification
+	if !public.Prover.ValidatePlaintext(p.Z) {
+		return false
+	}
 	if !arith.IsValidNatModN(public.Prover.N(), p.U, p.V) {
 		return false
 	}
